@@ -21,3 +21,28 @@ Definition fifo_out (g : list Z) (o : output) : option (list Z) :=
 Definition queued (s : state) : list Z := match s_proc s with Some (_, rest, _) => rest | None => [] end.
 Definition pext (s : state) : list Z :=
   match s_mblock s with Some (Some (offs, _)) => fst (extract (s_foff s) offs) | _ => [] end.
+
+(* monitors whose event rule may look at the model state the event arrives in (is the start accepted? which
+   request does the reply answer? at which fetch offset is it extracted?) *)
+Section MonS.
+Variable G : Type.
+Variable gev : G -> state -> event -> G.
+Variable gout : G -> output -> option G.
+Fixpoint mon_run_s (g : G) (tr : list tstep) : option G :=
+  match tr with
+  | [] => Some g
+  | (s, e, o, _) :: r => match gouts gout (gev g s e) o with Some g' => mon_run_s g' r | None => None end
+  end.
+End MonS.
+Arguments mon_run_s {G} gev gout g tr.
+
+Definition fetch_accepted (s : state) : bool := match s_req s with Some (k, false) => k =? R_FETCH | _ => false end.
+
+(* FIFO: an accepted start forgets what the stopped consumer had dropped; an accepted fetch reply is extracted at the
+   current fetch offset *)
+Definition fifo_ev (g : list Z) (s : state) (e : event) : list Z :=
+  match e with
+  | EStart _ => if is_none (s_startd s) then [] else g
+  | EFetchOk offs _ => if fetch_accepted s then g ++ fst (extract (s_foff s) offs) else g
+  | _ => g
+  end.
